@@ -36,10 +36,13 @@ func HFlistEncode() {
 	kind := vfsx.Kind(nd_range(1, 7))
 	perm := uint32(nd_u16()) & 0o777
 	sec := int64(nd_i32())
+	ns := nd_u32() // sub-second part: the wire carries whole seconds, rounded down
+	vassume(ns < 1000000000)
+	nsec := int64(ns)
 	uid, gid := nd_u32(), nd_u32()
 	rdev := nd_u32()
 	n := vparam("n")
-	node := &vfsx.Node{Name: "f", Kind: kind, Perm: perm, Sec: sec, Uid: uid, Gid: gid}
+	node := &vfsx.Node{Name: "f", Kind: kind, Perm: perm, Sec: sec, Nsec: nsec, Uid: uid, Gid: gid}
 	switch kind {
 	case vfsx.KReg:
 		node.Data = nd_bytes(n)
@@ -109,7 +112,53 @@ func HFlistEncode() {
 	vreach("done")
 }
 
-func init() { verifHarnesses["HFlistEncode"] = HFlistEncode }
+func init() { verifHarnesses["HFlistEncode"] = HFlistEncode; verifHarnesses["HIdLists"] = HIdLists }
+
+// HIdLists (C15, id lists): with a name service in which every id resolves (users are
+// called "usr", groups "grp"; symbolic-only stand-in for os/user), the list the sender
+// emits for one file with arbitrary owner and group must carry, after the entries, a
+// user list that names exactly the file's non-zero uid and a group list that names exactly
+// its non-zero gid - each present only under the option that adds it.
+func HIdLists() {
+	fsys := vfsx.New()
+	defer fsys.Cleanup()
+	uid, gid := nd_u32(), nd_u32()
+	fsys.Add(&vfsx.Node{Name: "f", Kind: vfsx.KReg, Perm: 0o644, Uid: uid, Gid: gid, Data: []byte{1}})
+	fl := rsyncopts.VerifFlags{Server: true, Sender: true, Recurse: true, XferDirs: 1, Uid: nd_bool(), Gid: nd_bool()}
+	conn := newVconn(nil)
+	st := newSenderTransfer(conn, 0, fl)
+	st.Source = NewFSSource(fsys.AsFS("."))
+	_, err := st.SendFileList("/model", []string{"."}, &filterRuleList{})
+	vassert(err == nil, "SendFileList failed")
+	if err != nil {
+		return
+	}
+	o := refOpts{Uid: fl.Uid, Gid: fl.Gid}
+	ents, _, consumed, ok := refDecodeList(conn.out, o, 4)
+	vassert(ok && consumed == len(conn.out), "the emitted list (entries, id lists, error word) is not a valid protocol-27 list")
+	if !ok {
+		return
+	}
+	vassert(len(ents) == 2, "number of entries on the wire")
+	wantU, wantG := 0, 0
+	if fl.Uid && uid != 0 {
+		wantU = 1
+	}
+	if fl.Gid && gid != 0 {
+		wantG = 1
+	}
+	vassert(len(refUidList) == wantU, "user list: one pair per distinct non-zero uid in the list")
+	vassert(len(refGidList) == wantG, "group list: one pair per distinct non-zero gid in the list")
+	if len(refUidList) == 1 {
+		vassert(uint32(refUidList[0].ID) == uid && refUidList[0].Name == "usr", "user list pairs the file's uid with the user's name")
+		vreach("uidlist")
+	}
+	if len(refGidList) == 1 {
+		vassert(uint32(refGidList[0].ID) == gid && refGidList[0].Name == "grp", "group list pairs the file's gid with the group's name")
+		vreach("gidlist")
+	}
+	vreach("done")
+}
 
 // HSenderNumbering (C15): the index by which the receiver requests a file refers to the
 // same file on the sender. A directory holds two files with symbolic one-byte names
@@ -130,15 +179,37 @@ func HSenderNumbering() {
 	s1, s2 := string([]byte{n1}), string([]byte{n2})
 	fsys.Add(&vfsx.Node{Name: s1, Kind: vfsx.KReg, Perm: 0o644, Data: []byte{0x41}})
 	fsys.Add(&vfsx.Node{Name: s2, Kind: vfsx.KReg, Perm: 0o644, Data: []byte{0x42, 0x42}})
-	// reference numbering: bytewise order of ".", s1, s2
-	names := []string{".", s1, s2}
+	senderNumbering(fsys, []string{".", s1, s2}, s1, s2)
+}
+
+// HSenderNumberingDir (C15/C01): as HSenderNumbering, for a tree with a subdirectory:
+// "d/x" next to a sibling "d<c>" with a symbolic byte c (names such as "d.x" and "d-x"
+// sort before "d/x", "d0" after it: the order is bytewise over the whole path).
+func HSenderNumberingDir() {
+	fsys := vfsx.New()
+	defer fsys.Cleanup()
+	c := nd_u8()
+	vassume(c != 0)
+	vassume(c != '/')
+	s1, s2 := "d/x", string([]byte{'d', c})
+	fsys.Add(&vfsx.Node{Name: "d", Kind: vfsx.KDir, Perm: 0o755})
+	fsys.Add(&vfsx.Node{Name: s1, Kind: vfsx.KReg, Perm: 0o644, Data: []byte{0x41}})
+	fsys.Add(&vfsx.Node{Name: s2, Kind: vfsx.KReg, Perm: 0o644, Data: []byte{0x42, 0x42}})
+	senderNumbering(fsys, []string{".", "d", s1, s2}, s1, s2)
+}
+
+// senderNumbering asks the real sender for the k-th entry of the bytewise-sorted names;
+// s1 holds one byte 0x41, s2 two bytes 0x42, every other name is a directory.
+func senderNumbering(fsys *vfsx.FS, names []string, s1, s2 string) {
+	nEnt := len(names)
+	// reference numbering: bytewise order
 	for i := 1; i < len(names); i++ {
 		for j := i; j > 0 && names[j] < names[j-1]; j-- {
 			names[j], names[j-1] = names[j-1], names[j]
 		}
 	}
-	k := nd_range(0, 2)
-	vassume(names[k] != ".")
+	k := nd_range(0, nEnt-1)
+	vassume(names[k] == s1 || names[k] == s2)
 	var in []byte
 	in = putI32(in, int32(k))
 	in = putI32(in, 0)
@@ -164,7 +235,7 @@ func HSenderNumbering() {
 		return
 	}
 	// skip the file list, then: index echo, header, tokens
-	_, _, consumed, ok := refDecodeList(conn.out, refOpts{}, 4)
+	_, _, consumed, ok := refDecodeList(conn.out, refOpts{}, nEnt+1)
 	vassert(ok, "file list not decodable")
 	if !ok {
 		return
@@ -180,4 +251,4 @@ func HSenderNumbering() {
 	vreach("numbered")
 }
 
-func init() { verifHarnesses["HSenderNumbering"] = HSenderNumbering }
+func init() { verifHarnesses["HSenderNumbering"] = HSenderNumbering; verifHarnesses["HSenderNumberingDir"] = HSenderNumberingDir }
